@@ -85,6 +85,9 @@ pub enum Op {
     M(MOp),
     K(KOp),
     S(SOp),
+    /// run the operation on an independent copy of the collection (expiring-key collections only):
+    /// answers and resulting state are recorded, the collection itself stays as it was
+    Fork(Box<Op>),
 }
 
 #[derive(Clone, Debug)]
@@ -102,6 +105,7 @@ pub struct History {
 impl Op {
     pub fn text(&self) -> String {
         match self {
+            Op::Fork(o) => format!("~ {}", o.text()),
             Op::M(o) => match o {
                 MOp::Ins(k, v) => format!("I {k} {v}"),
                 MOp::Del(k) => format!("D {k}"),
@@ -141,6 +145,9 @@ impl Op {
 }
 
 fn parse_op(coll: Coll, toks: &[&str]) -> Op {
+    if toks[0] == "~" {
+        return Op::Fork(Box::new(parse_op(coll, &toks[1..])));
+    }
     let i = |j: usize| -> i64 { toks[j].parse().unwrap_or_else(|_| panic!("bad number {:?}", toks)) };
     match coll {
         Coll::MapTree | Coll::SetTree | Coll::MapList | Coll::SetList => Op::M(match toks[0] {
